@@ -173,7 +173,7 @@ class _:
     def cases(self, tier, rng):
         for shp in [(4, 3, 2), (5, 4)]:
             for kind in ("uniform", "stratified", "semistrat"):
-                for nz, z in [(2, 3), (5, 5), (40, 3), (3, 60), (0, 4), (4, 0)]:
+                for nz, z in [(2, 3), (5, 5), (40, 3), (3, 60), (0, 4), (4, 0), (1, 0), (0, 1)]:
                     for seed in range(2 if tier == "quick" else 6):
                         yield dict(shape=list(shp), kind=kind, nz=nz, z=z, seed=rng.randrange(10**6))
 
@@ -204,7 +204,7 @@ class _:
         if subs.ndim != 2 or subs.shape[1] != len(shp):
             raise Fail(f"subs-shape:{cls}", f"{case}: {subs.shape}")
         n = subs.shape[0]
-        if np.asarray(vals).reshape(-1).shape[0] != n or np.asarray(wts).reshape(-1).shape[0] != n:
+        if np.asarray(vals).shape != (n,) or np.asarray(wts).shape != (n,):
             raise Fail(f"one-value-and-weight-per-sample:{cls}", f"{case}: {n} subscripts, {np.asarray(vals).size} values, {np.asarray(wts).size} weights")
         if n and ((subs < 0).any() or (subs >= np.array(shp)).any()):
             raise Fail(f"subs-out-of-range:{cls}", f"{case}: {subs.tolist()}")
@@ -285,6 +285,19 @@ class _:
             M2, _ = solver.solve(init.copy(), data, f, g, lb)
             if any(not np.allclose(a, b, rtol=1e-10, atol=1e-12) for a, b in zip(M.factor_matrices, M2.factor_matrices)):
                 raise Fail("lbfgsb:second-solve-differs", f"{case}")
+            # reuse after a solve of a DIFFERENT problem size: same answer as a fresh optimizer object
+            big = (7, 6, 5)
+            dataB, XB = _problem(ttb, rs, big, "dense")
+            if case["loss"] == "POISSON":
+                dataB = ttb.tensor(np.round(XB * 3))
+            fB, gB, lbB = setup(getattr(Objectives, case["loss"]), dataB)
+            initB = ttb.ktensor([rs.rand(d, 2) + 0.1 for d in big], np.ones(2))
+            used = optimizers.LBFGSB(maxiter=200)
+            used.solve(initB, dataB, fB, gB, lbB)
+            Mu, _ = used.solve(init.copy(), data, f, g, lb)
+            Mf, _ = optimizers.LBFGSB(maxiter=200).solve(init.copy(), data, f, g, lb)
+            if any(not np.allclose(a, b, rtol=1e-8, atol=1e-10) for a, b in zip(Mu.factor_matrices, Mf.factor_matrices)):
+                raise Fail("lbfgsb:solve-depends-on-earlier-solve-of-another-size", f"{case}")
             return
         cls_ = getattr(optimizers, case["opt"])
         solver = cls_(rate=case["rate"], epoch_iters=5, max_iters=case["epochs"], max_fails=case["max_fails"], printitn=0)
@@ -330,3 +343,20 @@ class _:
         M2, info2 = one_solve(case["seed"])
         if any(not np.allclose(a, b, rtol=1e-9, atol=1e-12) for a, b in zip(M.factor_matrices, M2.factor_matrices)):
             raise Fail(f"second-solve-depends-on-first:{case['opt']}", f"{case}")
+        # reuse after a solve of a different problem size: same answer as a fresh solver object
+        big = (6, 5, 4)
+        dataB, XB = _problem(ttb, rs, big, "dense")
+        if case["loss"] == "POISSON":
+            dataB = ttb.tensor(np.round(XB * 3))
+        fB, gB, lbB = setup(getattr(Objectives, case["loss"]), dataB)
+        initB = ttb.ktensor([rs.rand(d, 2) + 0.1 for d in big], np.ones(2))
+        try:
+            np.random.seed(case["seed"])
+            smpB = samplers.GCPSampler(dataB, function_samples=20, gradient_samples=10)
+            solver.solve(initB, dataB, fB, gB, lbB, smpB)
+        except ValueError as e:
+            if "Infinite gradient" not in str(e):
+                raise
+        M3, _ = one_solve(case["seed"])
+        if any(not np.allclose(a, b, rtol=1e-9, atol=1e-12) for a, b in zip(M.factor_matrices, M3.factor_matrices)):
+            raise Fail(f"solve-depends-on-earlier-solve-of-another-size:{case['opt']}", f"{case}")
